@@ -480,7 +480,7 @@ import random, struct
 M64 = (1 << 64) - 1
 def f32b(x): return struct.unpack('<I', struct.pack('<f', x))[0]
 def f64b(x): return struct.unpack('<Q', struct.pack('<d', x))[0]
-L32 = [f32b(x) for x in [0.0, -0.0, 1.0, -1.0, 0.5, -0.5, 1.5, 2.5, -2.5, 1e-40, -1e-45, 1.17549435e-38, 3.4028235e38, -3.4028235e38, float('inf'), -float('inf'), 8388607.5, 8388608.0, 16777216.0, 16777217.0, 2147483648.0, -2147483648.0, 4294967296.0, 0.1, 0.3, 3.0, 7.0, 1e10, 1e-20, 1e20]] + [0x7fc00000, 0xffc00000, 0x7fa00001, 0xffffffff, 0x7f800001, 0x00000001, 0x807fffff]
+L32 = [f32b(x) for x in [0.0, -0.0, 1.0, -1.0, 0.5, -0.5, 1.5, 2.5, -2.5, 1e-40, -1e-45, 1.17549435e-38, 3.4028235e38, -3.4028235e38, float('inf'), -float('inf'), 8388607.5, 4194304.5, -6291456.5, 2097152.25, 0.49999997, -0.49999997, 3.5, -3.5, 8388608.0, 16777216.0, 16777217.0, 2147483648.0, -2147483648.0, 4294967296.0, 0.1, 0.3, 3.0, 7.0, 1e10, 1e-20, 1e20]] + [0x7fc00000, 0xffc00000, 0x7fa00001, 0xffffffff, 0x7f800001, 0x00000001, 0x807fffff]
 L64 = [f64b(x) for x in [0.0, -0.0, 1.0, -1.0, 0.5, -0.5, 1.5, 2.5, -2.5, 5e-324, 2.2250738585072014e-308, 1.7976931348623157e308, -1.7976931348623157e308, float('inf'), -float('inf'), 4503599627370495.5, 4503599627370496.0, 9007199254740992.0, 9007199254740993.0, 9.223372036854775807e18, -9.223372036854775808e18, 1.8446744073709552e19, 0.1, 0.3, 3.0, 1e100, 1e-200, 1e200]] + [0x7ff8000000000000, 0xfff8000000000000, 0x7ff4000000000001, 0xffffffffffffffff, 1, 0x800fffffffffffff]
 
 class Gen:
